@@ -631,12 +631,23 @@ theorem odt_grid_cells_bounded (tbl : Node) :
     rw [this]
     omega
 
-/-- the edge (ODT): a cell spanning 1024 columns and 3 rows over 1024 rows - 2^20 - is believed
-(the rows below it get their placeholders); with one row more no placeholder is made -/
+/-- the edge (ODT): a cell spanning 1024 columns and 3 rows over 1024 rows - 2^20 - is believed;
+with one row more every span is set to 1 (so no placeholder is made below it) -/
 example :
     let c : Odt.Cell := { text := [65], colSpan := 1024, rowSpan := 3, covered := false }
-    ((Odt.processRowSpans (Odt.limitTableGrid ([c] :: List.replicate 1023 []))).map List.length).take 4 = [1, 1024, 1024, 0]
-    ∧ ((Odt.processRowSpans (Odt.limitTableGrid ([c] :: List.replicate 1024 []))).map List.length).take 4 = [1, 0, 0, 0] := by
+    (Odt.limitTableGrid ([c] :: List.replicate 1023 [])).map (·.map fun c => (c.colSpan, c.rowSpan))
+        = [(1024, 3)] :: List.replicate 1023 []
+    ∧ (Odt.limitTableGrid ([c] :: List.replicate 1024 [])).map (·.map fun c => (c.colSpan, c.rowSpan))
+        = [(1, 1)] :: List.replicate 1024 [] := by
+  decide +kernel
+
+/-- what being believed means: the two rows below a cell spanning 4 columns and 3 rows get their
+placeholders, the row after them does not; with the spans set to 1 no placeholder is made -/
+example :
+    let c : Odt.Cell := { text := [65], colSpan := 4, rowSpan := 3, covered := false }
+    let d : Odt.Cell := { text := [65], colSpan := 1, rowSpan := 1, covered := false }
+    (Odt.processRowSpans ([c] :: List.replicate 4 [])).map List.length = [1, 4, 4, 0, 0]
+    ∧ (Odt.processRowSpans ([d] :: List.replicate 4 [])).map List.length = [1, 0, 0, 0, 0] := by
   decide +kernel
 
 end Grid
